@@ -153,7 +153,7 @@ def _same(ctx, repo, mode, x, y, exact):
 
 def run_case(ctx, repo, case):
     mode = case["mode"]
-    repo.set_mode(mode)
+    repo.set_mode(mode, case)
     try:
         if case["op"] == "pair":
             a, b = repo.tp(case["a"]), repo.tp(case["b"])
